@@ -21,9 +21,9 @@ from harness import coqio as q
 from harness.props import _rt_common as rt
 
 ID = "C22"
-COQ_REQUIRE = ["M_Orch"]
-COQ_CASE_TYPE = "M_Orch.case"
-COQ_CHECK = "M_Orch.check_case"
+COQ_REQUIRE = ["Net", "M_Dpop", "M_DpopValid", "M_Orch", "M_OrchDpop"]
+COQ_CASE_TYPE = "M_OrchDpop.case2"
+COQ_CHECK = "M_OrchDpop.check_case2"
 OBLIGATIONS = ["orch_finishes_iff_all_ended", "orch_reports_last_values",
                "orch_cost_accounts_assignment",
                "orch_cost_none_iff_incomplete", "orch_cost_none_unguarded_refuted",
@@ -403,6 +403,8 @@ def _composed(case):
             full, t = queue.next_msg(0)
             if full is None:
                 return
+            if full.dest_comp != ORCHESTRATOR_MGT:
+                continue        # discovery subscriptions of the agents, for the directory computation
             posted.append(rt.canon_msg(full.msg))
             mgt.on_message(full.src_comp, full.msg, t)
     real_do = drv.do
@@ -449,6 +451,9 @@ def run_impl(case):
         saved = (M.on_message, M._send_mgt_msg, M._cb_agent_registration, M._cb_computation_registration)
         try:
             return _composed(case)
+        except Exception as e:      # an unexpected failure of the real code is reported, not hidden
+            import traceback
+            return dict(error=type(e).__name__, detail=traceback.format_exc()[-600:])
         finally:
             M.on_message, M._send_mgt_msg, M._cb_agent_registration, M._cb_computation_registration = saved
     if case["kind"] == "real":
@@ -504,9 +509,76 @@ def _link_assumptions(o, nodes, evs):
     return None
 
 
+def _oracle_composed(case, o):
+    """independent statement of the composed property on a thread-free composed run"""
+    from harness.props import C01 as c01
+    c = case["dpop"]
+    n = len(c["doms"])
+    names = [c01._v(i) for i in range(n)]
+    nodes = set(o["static"]["nodes"])
+    if nodes != set(names):
+        return "graph computations %r, variables %r" % (sorted(nodes), names)
+    evs = _events(o)
+    assign = dict(o["assignment"])
+    dp = o["dp"]
+    # what the computations told their agents, in order (select / finished callbacks)
+    told = [("value", e[1], e[2]) if e[0] == "select" else ("end", e[1], None)
+            for e in dp["log"] if e[0] in ("select", "fin")]
+    handled = [(ev["t"], ev["comp"], ev.get("value")) for ev, _ in evs if ev["t"] in ("value", "end")]
+    if handled != told:
+        return "AgentsMgt handled %r, the computations reported %r" % (handled, told)
+    host = {c_: a for a, cs in o["static"]["dist"] for c_ in cs}
+    for ev, _ in evs:
+        if ev["t"] in ("value", "end") and ev["agent"] != host.get(ev["comp"]):
+            return "message about %s sent in the name of %s, host is %s" % (ev["comp"], ev["agent"], host.get(ev["comp"]))
+    finished = [e[1] for e in dp["log"] if e[0] == "fin"]
+    stops = [i for i, (ev, outs) in enumerate(evs) if any(x[0] == "stop" for x in outs)]
+    if set(finished) == nodes:
+        if not stops:
+            return "every computation finished and reported it, no stop order was sent"
+        last_end = max(i for i, (ev, _) in enumerate(evs) if ev["t"] == "end")
+        if stops != [last_end]:
+            return "stop orders at steps %r, last end_of_computation at step %d" % (stops, last_end)
+        if sorted(assign) != sorted(names):
+            return "assignment %r does not cover exactly the variables %r" % (sorted(assign), names)
+        vals = [assign[nme] for nme in names]
+        for i in range(n):
+            if not (0 <= vals[i] < c["doms"][i]):
+                return "value %r of %s outside its domain" % (vals[i], names[i])
+        if c01._cost(c, vals) != c01._optimum(c):
+            return "reported assignment costs %d, optimum (%s) is %d" % (c01._cost(c, vals), c["mode"], c01._optimum(c))
+    elif stops:
+        return "stop order sent although %r have not finished" % sorted(nodes - set(finished))
+    if dp["complete"] and set(finished) != nodes:
+        return "network quiescent but %r never finished" % sorted(nodes - set(finished))
+    if all(nme in assign for nme in names):
+        vals = [assign[nme] for nme in names]
+        terms = []
+        for cc in c["cons"]:
+            t = cc["table"]
+            for x in cc["scope"]:
+                t = t[vals[x]]
+            terms.append(t)
+        for i, vc in enumerate(c["vcost"]):
+            if vc is not None:
+                terms.append(vc.get(str(vals[i]), 0))
+        viol = sum(1 for t in terms if t == rt.INFINITY)
+        soft = sum(t for t in terms if t != rt.INFINITY)
+        if (o["violation"], o["cost"]) != (viol, soft):
+            return "reported (violation, cost) = (%r, %r), accounting of the assignment gives (%d, %d)" % (
+                o["violation"], o["cost"], viol, soft)
+        if soft + rt.INFINITY * viol != c01._cost(c, vals):
+            return "cost + infinity * violation differs from the cost of the assignment"
+    elif o["cost"] is not None or o["violation"] is not None:
+        return "cost %r / violation %r reported for an incomplete assignment" % (o["cost"], o["violation"])
+    return None
+
+
 def oracle(case, o):
     if "error" in o:
         return "run failed: %s %s" % (o["error"], o.get("detail", ""))
+    if case["kind"] == "composed":
+        return _oracle_composed(case, o)
     spec = case["spec"]
     names = [rt.vname(i) for i in range(len(spec["doms"]))]
     assign = dict(o["assignment"])
@@ -623,13 +695,32 @@ def _out_term(o):
     raise ValueError("sent message not modelled: %r" % o)
 
 
-def coq_case(case, o):
-    if "error" in o:
-        return None
-    spec = case["spec"]
+def _flat(t):
+    if isinstance(t, list):
+        return [x for y in t for x in _flat(y)]
+    return [t]
+
+
+def _dcop_term(case, o):
+    """the orchestrator's DCOP object as M_Orch.dcop"""
     st = o["static"]
-    cfg = "(mkCfg %s %s false)" % (
-        q.slist(st["nodes"]), q.lst([q.pair(q.s(a), q.slist(cs)) for a, cs in st["dist"]]))
+    if case["kind"] == "composed":
+        from harness.props import C01 as c01
+        c = case["dpop"]
+        n = len(c["doms"])
+        assert sorted(st["variables"]) == [c01._v(i) for i in range(n)], st["variables"]
+        dvars = q.lst([q.pair(q.s(nme), q.zlist([(c["vcost"][int(nme[1:])] or {}).get(str(k), 0)
+                                                 for k in range(c["doms"][int(nme[1:])])]))
+                       for nme in st["variables"]])
+        cons = []
+        for k, cc in enumerate(c["cons"]):
+            scope = [c01._v(i) for i in cc["scope"]]
+            if o["dp"]["cons_dims"][c01._c(k)] != scope or st["constraints"][k]["scope"] != scope:
+                raise ValueError("constraint %d has dimensions %r, scope %r" % (k, o["dp"]["cons_dims"], scope))
+            cons.append("(mkCons %s %s %s)" % (q.slist(scope), q.zlist([c["doms"][i] for i in cc["scope"]]),
+                                               q.zlist(_flat(cc["table"]))))
+        return "(mkDcop %s %s %s)" % (dvars, q.lst(cons), q.z(rt.INFINITY))
+    spec = case["spec"]
     vc = case.get("var_costs") or {}
     assert sorted(st["variables"]) == [rt.vname(i) for i in range(len(spec["doms"]))], st["variables"]
     dvars = q.lst([q.pair(q.s(nme), q.zlist(vc.get(str(int(nme[1:]))) or [])) for nme in st["variables"]])
@@ -637,7 +728,14 @@ def coq_case(case, o):
                                          q.zlist([spec["doms"][i] for i in c["scope"]]),
                                          q.zlist(c["table"])) for c in spec["cons"]])
     assert [c["scope"] for c in st["constraints"]] == [[rt.vname(i) for i in c["scope"]] for c in spec["cons"]]
-    dcop = "(mkDcop %s %s %s)" % (dvars, cons, q.z(rt.INFINITY))
+    return "(mkDcop %s %s %s)" % (dvars, cons, q.z(rt.INFINITY))
+
+
+def _orch_case(case, o):
+    st = o["static"]
+    cfg = "(mkCfg %s %s false)" % (
+        q.slist(st["nodes"]), q.lst([q.pair(q.s(a), q.slist(cs)) for a, cs in st["dist"]]))
+    dcop = _dcop_term(case, o)
     steps = []
     n_crit = 0
     for e in o["trace"]:
@@ -652,10 +750,25 @@ def coq_case(case, o):
             q.b(e["flags"][0]), ready, q.b(e["flags"][2])))
     if case["kind"] == "crafted" and n_crit != o["critical"]:
         raise ValueError("critical-error path taken %d times, %d unknown messages" % (o["critical"], n_crit))
+    if case["kind"] == "composed" and n_crit:
+        raise ValueError("unknown management message in a composed run")
     status = q.lst([q.pair(q.s(k), q.b(v == "finished")) for k, v in o["comp_status"]])
     assign = q.lst([q.pair(q.s(k), q.z(v)) for k, v in o["assignment"]])
     cost = "None" if o["cost"] is None else "(Some (%s, %s))" % (q.z(o["violation"]), q.z(o["cost"]))
-    return "mkCase %s %s %s %s %s %s" % (cfg, dcop, q.lst(steps), status, assign, cost)
+    return "M_Orch.mkCase %s %s %s %s %s %s" % (cfg, dcop, q.lst(steps), status, assign, cost)
+
+
+def coq_case(case, o):
+    if "error" in o:
+        return None
+    if case["kind"] != "composed":
+        return "COrch (%s)" % _orch_case(case, o)
+    from harness.props import C01 as c01
+    dp = c01.coq_case(case["dpop"], o["dp"])
+    assert dp.startswith("mkCase (mkDcop "), dp[:40]
+    dp = "M_Dpop.mkCase (M_Dpop.mkDcop " + dp[len("mkCase (mkDcop "):]
+    names = q.lst([q.pair(q.z(i), q.s(c01._v(i))) for i in range(len(case["dpop"]["doms"]))])
+    return "CComp (mkCC (%s) %s (%s))" % (dp, names, _orch_case(case, o))
 
 
 # ------------------------------------------------------------------ evidence helpers
@@ -670,6 +783,11 @@ def histogram(cases, obs):
         h[k] = h.get(k, 0) + 1
         if "error" in o:
             h["error/" + o["error"]] = h.get("error/" + o["error"], 0) + 1
+        elif c["kind"] == "composed":
+            kk = "composed_complete" if o["dp"]["complete"] else "composed_truncated"
+            h[kk] = h.get(kk, 0) + 1
+            if o["violation"]:
+                h["composed_with_violation"] = h.get("composed_with_violation", 0) + 1
         elif c["kind"] == "real":
             h["real_max_elapsed_s"] = max(h.get("real_max_elapsed_s", 0), round(o["elapsed"], 1))
     return h
